@@ -50,7 +50,9 @@ def generator(ir: ExpressionIR, options: dict[str, int | float | npt.DTypeLike])
     body = format(parts)
     body = "\n".join(["    " + line for line in body.split("\n")])
 
-    d["tabulate_expression"] = header + body
+    # The header ends with the indentation of its closing quotes: drop it, or a body whose
+    # first line is a statement (not a comment or blank line) would be indented twice
+    d["tabulate_expression"] = header.rstrip(" ") + body
 
     # TODO: original_coefficient_positions_init
     originals = ", ".join(str(i) for i in ir.original_coefficient_positions)
